@@ -437,27 +437,42 @@ impl<R: Relocation> VecAssembler<R> {
             return Err(e);
         }
 
-        // Resolve statics
-        for (loc, label) in self.relocs.take_statics() {
-            let target = self.labels.resolve_static(&label)?;
-            let buf = &mut self.ops[loc.range(0)];
-            if loc.patch(buf, self.baseaddr, target.0).is_err() {
-                return Err(DynasmError::ImpossibleRelocation(
+        // Resolve statics. A relocation that cannot be resolved stays registered, together with the
+        // ones behind it, so that a later commit cannot hand out their fields unpatched.
+        let mut statics = self.relocs.take_statics().collect::<Vec<_>>().into_iter();
+        while let Some((loc, label)) = statics.next() {
+            let result = self.labels.resolve_static(&label).and_then(|target| {
+                let buf = &mut self.ops[loc.range(0)];
+                loc.patch(buf, self.baseaddr, target.0).map_err(|_| DynasmError::ImpossibleRelocation(
                     if label.is_global() {
                         TargetKind::Global(label.get_name())
                     } else {
                         TargetKind::Local(label.get_name())
                     }
-                ));
+                ))
+            });
+            if let Err(e) = result {
+                self.relocs.add_static(label, loc);
+                for (loc, label) in statics {
+                    self.relocs.add_static(label, loc);
+                }
+                return Err(e);
             }
         }
 
         // Resolve dynamics
-        for (loc, id) in self.relocs.take_dynamics() {
-            let target = self.labels.resolve_dynamic(id)?;
-            let buf = &mut self.ops[loc.range(0)];
-            if loc.patch(buf, self.baseaddr, target.0).is_err() {
-                return Err(DynasmError::ImpossibleRelocation(TargetKind::Dynamic(id)));
+        let mut dynamics = self.relocs.take_dynamics().collect::<Vec<_>>().into_iter();
+        while let Some((loc, id)) = dynamics.next() {
+            let result = self.labels.resolve_dynamic(id).and_then(|target| {
+                let buf = &mut self.ops[loc.range(0)];
+                loc.patch(buf, self.baseaddr, target.0).map_err(|_| DynasmError::ImpossibleRelocation(TargetKind::Dynamic(id)))
+            });
+            if let Err(e) = result {
+                self.relocs.add_dynamic(id, loc);
+                for (loc, id) in dynamics {
+                    self.relocs.add_dynamic(id, loc);
+                }
+                return Err(e);
             }
         }
 
@@ -750,18 +765,26 @@ impl<R: Relocation> Assembler<R> {
             return Err(e);
         }
 
-        // Resolve statics
-        for (loc, label) in self.relocs.take_statics() {
-            let target = self.labels.resolve_static(&label)?;
-            let buf = &mut buf[loc.range(buf_offset)];
-            if loc.patch(buf, buf_addr, target.0).is_err() {
-                return Err(DynasmError::ImpossibleRelocation(
+        // Resolve statics. A relocation that cannot be resolved stays registered, together with the
+        // ones behind it, so that a later commit cannot make their fields executable unpatched.
+        let mut statics = self.relocs.take_statics().collect::<Vec<_>>().into_iter();
+        while let Some((loc, label)) = statics.next() {
+            let result = self.labels.resolve_static(&label).and_then(|target| {
+                let buf = &mut buf[loc.range(buf_offset)];
+                loc.patch(buf, buf_addr, target.0).map_err(|_| DynasmError::ImpossibleRelocation(
                     if label.is_global() {
                         TargetKind::Global(label.get_name())
                     } else {
                         TargetKind::Local(label.get_name())
                     }
-                ));
+                ))
+            });
+            if let Err(e) = result {
+                self.relocs.add_static(label, loc);
+                for (loc, label) in statics {
+                    self.relocs.add_static(label, loc);
+                }
+                return Err(e);
             }
             if loc.needs_adjustment() {
                 self.managed.add(loc)
@@ -769,11 +792,18 @@ impl<R: Relocation> Assembler<R> {
         }
 
         // Resolve dynamics
-        for (loc, id) in self.relocs.take_dynamics() {
-            let target = self.labels.resolve_dynamic(id)?;
-            let buf = &mut buf[loc.range(buf_offset)];
-            if loc.patch(buf, buf_addr, target.0).is_err() {
-                return Err(DynasmError::ImpossibleRelocation(TargetKind::Dynamic(id)));
+        let mut dynamics = self.relocs.take_dynamics().collect::<Vec<_>>().into_iter();
+        while let Some((loc, id)) = dynamics.next() {
+            let result = self.labels.resolve_dynamic(id).and_then(|target| {
+                let buf = &mut buf[loc.range(buf_offset)];
+                loc.patch(buf, buf_addr, target.0).map_err(|_| DynasmError::ImpossibleRelocation(TargetKind::Dynamic(id)))
+            });
+            if let Err(e) = result {
+                self.relocs.add_dynamic(id, loc);
+                for (loc, id) in dynamics {
+                    self.relocs.add_dynamic(id, loc);
+                }
+                return Err(e);
             }
             if loc.needs_adjustment() {
                 self.managed.add(loc)
